@@ -28,6 +28,8 @@ type Ty struct {
 	// user-declared Equal with a VALUE receiver and a value parameter (named struct: ignores the last field;
 	// named integer: compares the lowest bit only), so that it differs from == although the type is comparable
 	UserEqualVal bool
+	// user-declared `Hash() int32` (pointer receiver) on a named struct: the low bits of its first field
+	UserHash bool
 }
 
 func B(n string) *Ty                 { return &Ty{K: "basic", Name: n} }
@@ -196,6 +198,9 @@ func (g *Gen) Decls() string {
 				cs = append(cs, fmt.Sprintf("this.%s == that.%s", f.Name, f.Name))
 			}
 			fmt.Fprintf(&sb, "func (this *%s) Equal(that *%s) bool {\n\tif this == nil || that == nil {\n\t\treturn this == nil && that == nil\n\t}\n\treturn %s\n}\n\n", n, n, strings.Join(cs, " && "))
+		}
+		if d.UserHash {
+			fmt.Fprintf(&sb, "func (this *%s) Hash() int32 {\n\tif this == nil {\n\t\treturn 0\n\t}\n\treturn int32(this.%s)\n}\n\n", n, d.Under.Fields[0].Name)
 		}
 		if d.UserEqualVal {
 			if d.Under.K == "struct" {
